@@ -16,34 +16,32 @@ theorem PTDP_pack_preserves_fields (s : PTDP.State) :
 theorem PTDP_pack_idempotent (s : PTDP.State) : PTDP.pack (PTDP.pack s).1 = PTDP.pack s := by
   rw [PTDP_pack_preserves_fields]; rfl
 
-/-- Full statement (FAILS on the code, finding F1 in notes/golay7.md): `unpack t b = unpack fresh b`
-    whenever it succeeds.  `PTDP.unpack` never assigns `low_latency`, so an object that was marked
-    low-latency keeps the mark after decoding a new buffer.  What holds: every other attribute, the
-    result and the bytes of a following pack are those of a fresh object. -/
-theorem PTDP_unpack_state_independent_partial (t u : PTDP.State) (b : Bytes) :
-    PTDP.unpack t b = ({ (PTDP.unpack u b).1 with low_latency := t.low_latency }, (PTDP.unpack u b).2) ∨
-    (PTDP.unpack t b).2 = .error .ptdpRemaining ∧ (PTDP.unpack u b).2 = .error .ptdpRemaining ∨
-    (PTDP.unpack t b).2 = .error .ptdpLength ∧ (PTDP.unpack u b).2 = .error .ptdpLength := by
-  by_cases h : b.length < 6
-  · right; left; rw [ptdp_unpack_short t b h, ptdp_unpack_short u b h]; exact ⟨rfl, rfl⟩
+/-- unpack depends only on the bytes: a successful unpack leaves the object in the state a fresh
+    object would be in (since the repair in /repo the low-latency marking is cleared as well) -/
+theorem PTDP_unpack_state_independent (t u : PTDP.State) (b rest : Bytes)
+    (h : (PTDP.unpack t b).2 = .ok rest) : PTDP.unpack t b = PTDP.unpack u b := by
+  by_cases h6 : b.length < 6
+  · rw [ptdp_unpack_short t b h6] at h; cases h
+  · rw [ptdp_unpack_any t b (by omega)] at h ⊢
+    rw [ptdp_unpack_any u b (by omega)]
+    unfold ptdpCore at h ⊢
+    simp only at h ⊢
+    split
+    · rename_i hh; simp only [hh, if_true] at h; cases h
+    · split
+      · rename_i h1 h2; simp only [h1, h2, if_false, if_true] at h; cases h
+      · rfl
+
+/-- on the failure paths the results agree as well (the state is then unspecified) -/
+theorem PTDP_unpack_result_state_independent (t u : PTDP.State) (b : Bytes) :
+    (PTDP.unpack t b).2 = (PTDP.unpack u b).2 := by
+  by_cases h6 : b.length < 6
+  · rw [ptdp_unpack_short t b h6, ptdp_unpack_short u b h6]
   · rw [ptdp_unpack_any t b (by omega), ptdp_unpack_any u b (by omega)]
     unfold ptdpCore
     simp only
-    split
-    · right; right; exact ⟨rfl, rfl⟩
-    · split
-      · right; left; exact ⟨rfl, rfl⟩
-      · left; rfl
-
-/-- … and the bytes of a following pack do not depend on the prior state at all -/
-theorem PTDP_unpack_then_pack_state_independent (t u : PTDP.State) (b rest : Bytes)
-    (h : (PTDP.unpack t b).2 = .ok rest) :
-    (PTDP.unpack u b).2 = .ok rest ∧ (PTDP.pack (PTDP.unpack t b).1).2 = (PTDP.pack (PTDP.unpack u b).1).2 := by
-  rcases PTDP_unpack_state_independent_partial t u b with h1 | ⟨h1, _⟩ | ⟨h1, _⟩
-  · rw [h1] at h ⊢
-    exact ⟨h, by rw [ptdp_pack_snd, ptdp_pack_snd]⟩
-  · rw [h1] at h; cases h
-  · rw [h1] at h; cases h
+    repeat' split
+    all_goals rfl
 
 /-- PTFR.pack changes nothing -/
 theorem PTFR_pack_preserves_fields (s : PTFR.State) : (PTFR.pack s).1 = s := by
